@@ -564,7 +564,9 @@ impl Deb822 {
                 }
                 i
             }
-            None => self.0.children().count(),
+            // (an index into nodes and tokens: comment lines can be tokens
+            // directly under the root)
+            None => self.0.children_with_tokens().count(),
         };
         self.0
             .splice_children(insertion_point..insertion_point, to_insert);
